@@ -113,6 +113,7 @@ ASSUMPTIONS = [
 CASE_TIMEOUT = 1800
 CHUNK = 1
 FRESH_FORK = True
+MEM_LIMIT_GB = 24     # exceptions of child processes are observations here
 
 _ROOT_PID = os.getpid()
 _SCRATCH = os.path.join(tempfile.gettempdir(), f"c19_run_{_ROOT_PID}")
